@@ -49,6 +49,7 @@ func c12Cases(tier string, seed int64) []core.Case {
 			}})
 		}
 	}
+	cases = append(cases, core.Case{ID: "announced-is-enforced-after-renegotiation", Run: c12AnnouncedEnforced})
 	// the library's "akaros" switch changes the text of every Rerror (error number in hex in front): replies must
 	// obey msize all the same
 	for _, sdotu := range []bool{true, false} {
@@ -585,5 +586,77 @@ func c12Ufs(ctx *core.Ctx, sdotu bool, cdotu ...bool) core.Result {
 		c.Hangup()
 	}
 	res.Sample(map[string]interface{}{"server": "ufs", "server_dotu": sdotu, "session_dotu": dotu, "msizes": "24..8192"})
+	return res
+}
+
+// c12AnnouncedEnforced: whatever sequence of Tversions a connection has seen (lower, then higher, then lower …), the
+// msize the last Rversion announced is the one the server honours from then on: a frame of exactly that size is
+// processed, one byte more drops the connection, a Tread for msize-IOHDRSZ bytes is within limits and its reply fits.
+func c12AnnouncedEnforced(ctx *core.Ctx) core.Result {
+	var res core.Result
+	seqs := [][]uint32{{256, 4096}, {4096, 256, 4096}, {64, 8192}, {8192, 100, 300, 200}, {1000, 1000, 2000}, {300}, {24, 8192}, {70000, 128, 70000}}
+	for _, dotu := range []bool{true, false} {
+		ver := "9P2000"
+		if dotu {
+			ver = "9P2000.u"
+		}
+		for si, seq := range seqs {
+			for _, probe := range []string{"exact", "plus-one", "read"} {
+				s := NewSess(Config{Dotu: dotu, Msize: 8192})
+				c := s.Dial()
+				var M uint32
+				okNeg := true
+				for _, m := range seq {
+					r, err := c.Version(m, ver, W)
+					if err != nil || r.Msg == nil {
+						okNeg = false
+						break
+					}
+					if r.Msg.Type == wire.Rversion {
+						M = r.Msg.Msize
+					}
+				}
+				res.Evals++
+				if !okNeg || M < 40 {
+					c.Hangup()
+					continue
+				}
+				det := map[string]interface{}{"tversion_msizes": seq, "announced": M, "dotu": dotu}
+				base := len(wire.Encode(&wire.Msg{Type: wire.Tattach, Tag: 1, Fid: 1, Afid: wire.NOFID, Uname: "root", Nuname: 0, Aname: ""}, dotu))
+				switch probe {
+				case "exact", "plus-one":
+					size := int(M)
+					if probe == "plus-one" {
+						size++
+					}
+					if size-base < 0 || size-base > 60000 {
+						c.Hangup()
+						continue
+					}
+					att := wire.Encode(&wire.Msg{Type: wire.Tattach, Tag: 1, Fid: 1, Afid: wire.NOFID, Uname: "root", Nuname: 0, Aname: strings.Repeat("n", size-base)}, dotu)
+					_ = c.SendRaw(att)
+					if probe == "exact" {
+						if rp, err := c.WaitTag(1, W); err != nil || rp.Msg == nil {
+							res.Violate("C12;announced-not-enforced;exact-size-refused", fmt.Sprintf("after Tversions %v the server announced msize %d, but a frame of exactly that size was not processed", seq, M), det)
+						}
+					} else if !c.WaitClosed(3 * time.Second) {
+						res.Violate("C12;announced-not-enforced;oversize-kept", fmt.Sprintf("after Tversions %v the server announced msize %d, but a frame one byte larger did not drop the connection", seq, M), det)
+					}
+				case "read":
+					c.Rpc(&wire.Msg{Type: wire.Tattach, Tag: 1, Fid: 1, Afid: wire.NOFID, Uname: "root", Nuname: 0}, W)
+					c.Rpc(&wire.Msg{Type: wire.Twalk, Tag: 2, Fid: 1, Newfid: 2, Wname: []string{"f"}}, W)
+					c.Rpc(&wire.Msg{Type: wire.Topen, Tag: 3, Fid: 2, Mode: 0}, W)
+					rp, err := c.Rpc(&wire.Msg{Type: wire.Tread, Tag: 4, Fid: 2, Offset: 0, Count: M - wire.IOHDRSZ}, W)
+					if err != nil || rp.Msg == nil || rp.Msg.Type != wire.Rread {
+						res.Violate("C12;announced-not-enforced;read-within-limit-refused", fmt.Sprintf("after Tversions %v the server announced msize %d, but a Tread of msize-IOHDRSZ bytes was answered %v", seq, M, rp), det)
+					} else if len(rp.Raw) > int(M) {
+						res.Violate("C12;oversize-frame;after-renegotiation", fmt.Sprintf("reply of %d bytes exceeds the announced msize %d", len(rp.Raw), M), det)
+					}
+				}
+				c.Hangup()
+				res.Sig(fmt.Sprintf("announced-enforced|%v|%d|%s", dotu, si, probe))
+			}
+		}
+	}
 	return res
 }
